@@ -180,6 +180,40 @@ def one_case(seed):
                 if want not in str(page):
                     return text, ops_done, "%s on a nested Wikicode is not visible in the page" % op, nested
                 continue
+        if secs and rng.random() < 0.1:
+            # ---- a string edit THROUGH a section, at a place inside it (not its first or last node): the section shows the edit and
+            # every section that has no node in common with it renders what it rendered before
+            cand = [j for j, x in enumerate(secs) if len(x.nodes) >= 3]
+            if cand:
+                j = rng.choice(cand)
+                T = secs[j]
+                inner = T.nodes[rng.randint(1, len(T.nodes) - 2)]
+                sT = str(T)
+                tgt = str(inner)
+                if type(inner).__name__ == "Text" and len(tgt) >= 4 and rng.random() < 0.6:
+                    a1 = rng.randint(1, len(tgt) - 3)
+                    tgt = tgt[a1:rng.randint(a1 + 1, len(tgt) - 1)]          # a piece of a Text node: the inexact path
+                if tgt.strip() and sT.count(tgt) == 1 and not any(ch in tgt for ch in "{}[]<>|=&'\n"):
+                    ranges = [(x.nodes._start, x.nodes._stop if x.nodes._stop is not None else len(page.nodes)) for x in secs]
+                    before = [str(x) for x in secs]
+                    op = rng.choice(["remove", "replace"])
+                    ops_done.append((op, "string through section %d" % j, tgt[:30]))
+                    try:
+                        if op == "remove":
+                            T.remove(tgt)
+                        else:
+                            T.replace(tgt, "RR%d" % step)
+                    except Exception as e:  # noqa: BLE001
+                        return text, ops_done, "%s(%r) through a section raised %r" % (op, tgt, e), nested
+                    want = sT.replace(tgt, "" if op == "remove" else "RR%d" % step, 1)
+                    if str(T) != want:
+                        return text, ops_done, "%s(%r) through a section: the section renders %r, expected %r" % (op, tgt, str(T)[:100], want[:100]), nested
+                    sj, ej = ranges[j]
+                    for k, (sk, ek) in enumerate(ranges):
+                        if k != j and (ek <= sj or sk >= ej) and str(secs[k]) != before[k]:
+                            return text, ops_done, ("%s(%r) through section %d (nodes %d:%d) changed section %d (nodes %d:%d), which has no node in common with it: "
+                                                    "%r -> %r" % (op, tgt, j, sj, ej, k, sk, ek, before[k][:80], str(secs[k])[:80])), nested
+                    continue
         if secs and kind < 0.2:
             # ---- a section view as the target
             j = rng.randrange(len(secs))
